@@ -12,7 +12,7 @@ except ImportError:
     from ordereddict import OrderedDict
 
 import re
-from copy import deepcopy
+from copy import copy, deepcopy
 import inspect
 import itertools
 import numpy
@@ -868,9 +868,26 @@ class CythonGroup(Group):
     def get_reduce_code(self):
         return self._get_code(kernel=None, kind='reduce')
 
+    def _get_representative(self, instances):
+        # The attribute types of the generated class are inferred from the
+        # values of one instance: an attribute that is an int there but a
+        # float in another instance of the class must be declared a float.
+        rep = instances[-1]
+        floats = set()
+        for eq in instances[:-1]:
+            for key, value in eq.__dict__.items():
+                if isinstance(value, float) and \
+                   type(rep.__dict__.get(key)) is int:
+                    floats.add(key)
+        if floats:
+            rep = copy(rep)
+            for key in floats:
+                setattr(rep, key, float(getattr(rep, key)))
+        return rep
+
     def get_equation_wrappers(self, known_types={}):
         classes = defaultdict(lambda: 0)
-        eqs = {}
+        eqs = defaultdict(list)
         for equation in self.equations:
             cls = equation.__class__.__name__
             n = classes[cls]
@@ -878,13 +895,13 @@ class CythonGroup(Group):
                 camel_to_underscore(equation.name), n
             )
             classes[cls] += 1
-            eqs[cls] = equation
+            eqs[cls].append(equation)
         wrappers = []
         predefined = dict(get_predefined_types(self.pre_comp))
         predefined.update(known_types)
         code_gen = CythonGenerator(known_types=predefined)
         for cls in sorted(classes.keys()):
-            code_gen.parse(eqs[cls])
+            code_gen.parse(self._get_representative(eqs[cls]))
             wrappers.append(code_gen.get_code())
         return '\n'.join(wrappers)
 
